@@ -63,6 +63,9 @@ func (e *engine) grammarObls(prop string, g *grammarDecl) []*obligation {
 		}
 		os.WriteFile(filepath.Join(tmp, g.Source), src, 0o644)
 		tool := filepath.Join(e.verif, "bin", g.Command[0])
+		if exe, err := os.Executable(); err == nil {
+			tool = filepath.Join(filepath.Dir(exe), g.Command[0]) // built next to this binary by MANIFEST.setup_cmd
+		}
 		cmd := exec.Command(tool, g.Command[1:]...)
 		cmd.Dir = tmp
 		outb, err := cmd.CombinedOutput()
